@@ -37,7 +37,10 @@ fn cli_check(text: &str, w: usize, dir: &std::path::Path, n: usize) -> Result<bo
         return Ok(false);
     }
     let a = IDL::try_from(text).map_err(|e| Fail::new("HARNESS/format-input-rejected", e.to_string()))?;
-    let want = a.get_multiline(0, w) + "\n";
+    let want = match std::panic::catch_unwind(std::panic::AssertUnwindSafe(|| a.get_multiline(0, w))) {
+        Ok(t) => t + "\n",
+        Err(p) => return Err(Fail::new("format/panic/get_multiline", format!("get_multiline panicked at width {}: {}", w, pt::panic_text(&p)))),
+    };
     let file = dir.join(format!("f{}.varlink", n));
     std::fs::write(&file, text).map_err(|e| Fail::new("HARNESS/io", e.to_string()))?;
     for color in ["off", "on"] {
